@@ -416,33 +416,54 @@ pub fn c08(ctx: &CheckCtx) -> CheckResult {
 }
 
 /// Transparent wrappers: the explorer sees the same tree with and without the wrapper around it.
-fn wrapper_transparency(_ctx: &CheckCtx, res: &mut CheckResult) {
-    let exe = Ok::<std::path::PathBuf, std::io::Error>(std::path::PathBuf::from("/proc/self/exe")).expect("current_exe");
-    let out = std::process::Command::new(&exe)
-        .arg("wrappers")
-        .stdout(std::process::Stdio::piped())
-        .stderr(std::process::Stdio::null())
-        .output();
-    match out {
-        Ok(o) if o.status.success() => {
-            let txt = String::from_utf8_lossy(&o.stdout);
-            match txt.lines().last().and_then(|l| serde_json::from_str::<serde_json::Value>(l).ok()) {
-                Some(v) => {
-                    res.cov("wrapper_transparency", v.clone());
-                    for m in v["mismatches"].as_array().cloned().unwrap_or_default() {
-                        res.finding(
-                            format!("wrapper/{}", m["wrapper"].as_str().unwrap_or("?")),
-                            format!("scheduler wrapper is not transparent: {}", m),
-                            json!({"engine": "wrappers", "case": m}),
-                        );
-                    }
-                }
-                None => res.machinery_errors.push("wrappers child produced no report".into()),
+fn wrapper_transparency(ctx: &CheckCtx, res: &mut CheckResult) {
+    // bodies are sharded over child processes (each explores plain tree + one tree per wrapper)
+    let per_family = if ctx.tier.is_thorough() { 12 } else { 3 };
+    let n = nshards();
+    let children: Vec<_> = (0..n)
+        .map(|k| {
+            std::process::Command::new("/proc/self/exe")
+                .args(["wrappers", &per_family.to_string(), &k.to_string(), &n.to_string()])
+                .stdout(std::process::Stdio::piped())
+                .stderr(std::process::Stdio::null())
+                .spawn()
+        })
+        .collect();
+    let mut cases = Vec::new();
+    for c in children {
+        let out = match c {
+            Ok(c) => c.wait_with_output(),
+            Err(e) => {
+                res.machinery_errors.push(format!("cannot spawn wrappers child: {}", e));
+                continue;
             }
+        };
+        match out {
+            Ok(o) if o.status.success() => {
+                let txt = String::from_utf8_lossy(&o.stdout);
+                match txt.lines().last().and_then(|l| serde_json::from_str::<serde_json::Value>(l).ok()) {
+                    Some(v) => {
+                        cases.extend(v["cases"].as_array().cloned().unwrap_or_default());
+                        for m in v["mismatches"].as_array().cloned().unwrap_or_default() {
+                            res.finding(
+                                format!("wrapper/{}", m["wrapper"].as_str().unwrap_or("?")),
+                                format!("scheduler wrapper is not transparent: {}", m),
+                                json!({"engine": "wrappers", "case": m}),
+                            );
+                        }
+                    }
+                    None => res.machinery_errors.push("wrappers child produced no report".into()),
+                }
+            }
+            Ok(o) => res.machinery_errors.push(format!("wrappers child failed: {:?}", o.status)),
+            Err(e) => res.machinery_errors.push(format!("wrappers child: {}", e)),
         }
-        Ok(o) => res.machinery_errors.push(format!("wrappers child failed: {:?}", o.status)),
-        Err(e) => res.machinery_errors.push(format!("cannot spawn wrappers child: {}", e)),
     }
+    let execs: u64 = cases.iter().map(|c| c["executions_wrapped"].as_u64().unwrap_or(0)).sum();
+    res.cov(
+        "wrapper_transparency",
+        json!({"bodies_x_wrappers": cases.len(), "executions_under_wrappers": execs, "wrappers": ["MetricsScheduler", "UncontrolledNondeterminismCheckScheduler", "AnnotationScheduler", "PortfolioRunner's stop wrapper"], "sample": cases.iter().take(8).collect::<Vec<_>>()}),
+    );
 }
 
 pub fn run_check(id: &str, tier: Tier) -> ! {
